@@ -140,16 +140,18 @@ Proof.
   unfold ends_with_slash, strip_slash. destruct (rev f) as [|c r]; [easy|]. now intros ->.
 Qed.
 
-Lemma match_file_agree p fs :
+Lemma match_file_agree n p fs :
+  match n with NDir _ => false | _ => true end = true ->
   forallb (fun f => negb (ends_with_slash f) && negb (has_prefix f (p ++ [SLASH]))) fs = true ->
   fs <> [] ->
-  matches p fs = git_sel fs p.
+  matches p fs = git_sel n fs p.
 Proof.
-  intros H Hne. unfold matches, git_sel. destruct fs as [|f0 fs0]; [easy|]. clear Hne.
+  intros Hn H Hne. unfold matches, git_sel. destruct fs as [|f0 fs0]; [easy|]. clear Hne.
   induction (f0 :: fs0) as [|f fs IH]; [reflexivity|].
   cbn [forallb] in H. apply andb_true_iff in H as [Hf Hfs]. apply andb_true_iff in Hf as [H1 H2].
   apply negb_true_iff in H1, H2. cbn [existsb]. rewrite (IH Hfs). f_equal.
-  unfold matches1, git_match_file. now rewrite H2, orb_false_r, (strip_slash_id _ H1).
+  unfold matches1, git_match_entry, git_match_file, git_match_dir.
+  destruct n; try discriminate Hn; now rewrite H2, orb_false_r, (strip_slash_id _ H1).
 Qed.
 
 (* ---------------------------------------------------------------- zip: same files, different layout *)
@@ -376,10 +378,12 @@ Proof.
     cbn [walk git_walk]. cbn [filter fst]. rewrite filter_app.
     rewrite <- (IH base Hfs Hsl Hnrest Hdrest Hfrest Hb).
     destruct n as [e d|t| |sub].
-    1-3: (assert (M : matches (join base name) fs = git_sel fs (join base name));
-          [apply match_file_agree; [|exact Hfs];
-           rewrite forallb_forall in Hsl, Hfn |- *; intros flt Hin; rewrite (Hsl flt Hin); cbn [andb]; exact (Hfn flt Hin)|];
-          rewrite M; cbn [filter app]; destruct (git_sel fs (join base name)); cbn [map app]; [now rewrite tar_entry_git|reflexivity]).
+    1-3: (match goal with |- context [git_sel ?nd ?ff ?pp] =>
+            assert (M : matches pp ff = git_sel nd ff pp);
+            [apply match_file_agree; [reflexivity| |exact Hfs];
+             rewrite forallb_forall in Hsl, Hfn |- *; intros flt Hin; rewrite (Hsl flt Hin); cbn [andb]; exact (Hfn flt Hin)|];
+            rewrite M; cbn [filter app]; destruct (git_sel nd ff pp); cbn [map app]; [now rewrite tar_entry_git|reflexivity]
+          end).
     apply andb_true_iff in Hdn as [Hleaf Hdsub]. apply andb_true_iff in Hfn as [Hfdir Hfsub].
     pose proof (dir_selected fs (join base name) sub Hp Hnsub Hleaf Hfdir) as DS.
     rewrite <- (IHn (join base name) Hfs Hsl Hnsub Hdsub Hfsub (or_intror Hp)).
@@ -435,7 +439,7 @@ Proof.
     apply negb_true_iff in Hsl. apply existsb_exists in Hex as (q & Hq & Hb). apply bytes_eq_eq in Hb. subst q.
     unfold paths in Hq. apply in_map_iff in Hq as ([q n] & E & Hq). cbn [fst] in E. subst q.
     unfold git_path_exists. apply existsb_exists. exists (flt, n). split; [exact Hq|]. cbn [fst snd].
-    destruct n; unfold git_match_file, git_match_dir; rewrite ?(strip_slash_id _ Hsl), bytes_eq_refl; reflexivity. }
+    destruct n; unfold git_match_entry, git_match_file, git_match_dir; rewrite ?(strip_slash_id _ Hsl), bytes_eq_refl; reflexivity. }
   rewrite PE. cbn [negb].
   rewrite <- (filtered_lazy prefix fs f [] Hfs Hsl Hn Hd Hfit (or_introl eq_refl)).
   unfold prefix_ok in Hp. apply andb_true_iff in Hp as [_ Hp].
